@@ -910,7 +910,7 @@ pub fn later_class(s: Option<&Step>, op: &Op) -> &'static str {
 pub fn run_history(case: &Case, backend: Backend, via: Via, or: Oracles, st: &mut Stats) -> CheckResult {
     let t_start = std::time::Instant::now();
     let mut h = Hist::new(case, backend, via, or)?;
-    h.clock_steps = true;
+    h.clock_steps = !crate::clock::is_frozen();
     let n = case.ops.len();
     st.label(&format!("driver:{backend:?}/{via:?}"));
     for (idx, op) in case.ops.iter().enumerate() {
